@@ -9,6 +9,13 @@ import MW.Lemmas.ImportPlan
 import MW.Lemmas.LedgerStatus
 import MW.Lemmas.ImportLive
 import MW.Lemmas.ImportExact
+import MW.Lemmas.ImportJoinMain
+import MW.Lemmas.ImportExt
+import MW.Lemmas.ImportJoinExt
+import MW.Lemmas.ImportReorgS
+import MW.Lemmas.ImportJoinReorg2
+import MW.Lemmas.ImportFull
+import MW.Lemmas.LedgerD2Ex
 namespace MW.Props.C07
 open MW MW.Model.Ledger MW.Model.Import MW.Lemmas.ImportPlan
 
@@ -479,36 +486,21 @@ def stepEv (batch : Nat) (p : Params) (own : Own) (wallets : List Wid) (w : Wid)
     { sys with s := r.1, v := r.2.1 }
   | .node ch => { sys with node := { sys.node with chain := ch } }
 
-/-- FULL statement of import_exact, kept type-checked.  For every batch size, every history of batches, tip
-    notifications, reorganisations (below or above the cursor) and node movements after the import moment: once the
-    wallet is done and the follower has caught up with the node, what the wallet reports is what the chain
-    specification `MW.Spec.Chain` says for the node's chain — i.e. exactly what a wallet that watched live reports
-    (C01).
-    NOT PROVED.  Proved instead (all universally quantified, about the executable model):
-      · the schedule: `import_run_exact`, `import_batches_adjacent`, `import_progress` — batches partition the
-        heights, nothing skipped or repeated, chain order;
-      · the content of a batch: `import_plan_exact` — exactly the node's transactions touching the wallet;
-      · the chain read is the follower's own: `batchHead_ok` + `followed_chain_agrees`;
-      · cursors under reorganisation: `pullBack_spec`.
-      · the per-transaction step: `import_tx_eq_live` — on a transaction the store has not recorded yet the rescan's
-        `addRelevantTxForImporting` IS the live follower's `addRelevantMined`, so the ledger library's
-        `spendOne_refines` / `creditOne_refines` / `applyPhase_refines` (C01) are facts about the rescan too.
-    STILL MISSING, now that C01's `Inv`, `connect_sound`, `rollback_connect`, `reorg_reaches` exist:
-    (1) RECORDS: that `filterTxForImporting` on the items of `plan` yields, block by block, records satisfying the
-        library's `Matches p own_w B (occsOfBlock b)` for `own_w` = the keystore being restored (the library proves
-        this for the live `filterTxs` — `filterTxs_block` under `FilterCtx` — whose previous-output lookup is gated
-        by `existCreditFromTx` and reads `Node.fetchTx`, where the rescan reads `fetchTxUntil`);
-    (2) INVARIANT WITH A WALLET THAT IS NOT READY: `Inv` / `connect_sound` / `reorg_reaches` assume
-        `AllReady c.own ready` (every keystore's wallet is ready).  While a wallet imports, the follower books the
-        ready wallets only, the rescan books the importing one up to its cursor, and `rollback` (which looks
-        addresses up in ALL keystores) undoes both: the invariant needed is the pair "books of the ready wallets for
-        the followed chain" + "books of the importing wallet for the chain up to its cursor", preserved by
-        `filterBlock`, `rollback`/`disconnectBlock` (with `pullBack`) and `importStep`;
-    (3) PENDING SIDE: the rescan calls `removeDoubleSpends` with the global keystore table while (1)–(2) reason with
-        the restricted one; the two differ on pending buckets only (`MinedEq`), which needs a congruence lemma for
-        `addRelevantMined` modulo `MinedEq`.
-    The three-way differential runs cover all of this (implementation = model = `ledgerOf` after every import, also
-    under reorganisations at / below / above the cursor and flip-flops). -/
+/-- FULL statement of import_exact as written in round 1, kept type-checked.  For every batch size, every history of
+    batches, tip notifications, reorganisations (below or above the cursor) and node movements after the import moment:
+    once the wallet is done and the follower has caught up with the node, what the wallet reports is what the chain
+    specification `MW.Spec.Chain` says for the node's chain — i.e. exactly what a wallet that watched live reports (C01).
+    STATUS (round 5): in this LITERAL form the statement is TOO STRONG — `import_exact_full_literal_false` refutes it
+    with a store whose synced-to pointer disagrees with its synced-to table at the import moment (the literal
+    hypotheses say nothing about the store following the node's chain; they also admit ill-formed node chains and
+    batches on a ready wallet).  The statement WITH the needed hypotheses — at the import moment the store follows the
+    chain (C01's `Inv` for the other, ready, wallets), chains are hash-linked / valid / made of known blocks, notified
+    blocks are on the node's chain, batches run while the wallet is importing — is PROVED: `import_exact_full_good`
+    (stage 3), on top of stage 1 (`import_exact_static_full`), stage 2 (`import_exact_extensions_joined`,
+    `import_exact_reorg_joined`) and the schedule / content theorems of round 1 (`import_run_exact`,
+    `import_batches_adjacent`, `import_progress`, `import_plan_exact`, `batchHead_ok`, `followed_chain_agrees`,
+    `pullBack_spec`, `import_tx_eq_live`).  Unconfirmed transactions (`recvTx`) are not events of these histories
+    (the theorems hold for any content of the pending buckets); the three-way differential runs cover them. -/
 def import_exact_full : Prop :=
   ∀ (batch : Nat) (p : Params) (own : Own) (wallets : List Wid) (w : Wid) (sys0 : Sys) (evs : List Ev) (minConf : Nat),
     batch > 0 →
@@ -608,19 +600,46 @@ theorem import_observed_static (batch : Nat) (hb : batch > 0) (c : Ctx) (w : Wid
   rw [hws]
   simp [hst']
 
-/-- FULL statement of stage 1, kept type-checked; NOT PROVED.  The instance holds other wallets, all ready; their
-    books for the whole chain are in the store (`Inv` for the keystore table without `w`'s addresses), `w` has just
-    been imported (cursor 0, nothing recorded, genesis without transactions), the chain stands still: when the rescan
-    reports done the store satisfies `Inv` for the FULL keystore table.  What `import_exact_static_partial` lacks for
-    this: the invariant pair "books of the ready wallets for the chain" + "books of `w` up to the cursor" (a joined
-    book: credits / debits / deposit records are disjoint by owner, tx records coincide where both exist, block
-    records merge by block position — `insertByPos`), the per-transaction refinement against that joined book
-    (`spendOne_refines` / `creditOne_refines` apply to it; the fold lemmas `spendFold_refines` /
-    `createFold_refines` assume `AllReady` and need copies that only ask readiness of the coins actually hit), and
-    "joined books of the two halves of the table = books of the table" (from `CredInv` / `DebitInv` / `GameInv` /
-    `bookOf_txrecs_iff`).  RECORDS (`filterImp_spec`) and the schedule are done and do not depend on the restriction
-    except through `mine_eq` (the filter looks at `w`'s addresses only). -/
-def import_exact_static_full : Prop :=
+open MW.Lemmas.ImportExact MW.Lemmas.ImportJoin MW.Lemmas.Ledger in
+/-- **import_exact_static_joined** (stage 1 of `import_exact_full`, OTHER WALLETS IN THE INSTANCE).  The instance
+    holds other wallets whose books for the whole followed chain are in the store (`Inv` for the keystore table
+    without `w`'s addresses — what the live follower maintains, C01), `w` has just been imported (cursor 0, balance
+    0, nothing recorded; genesis block without transactions), the node's chain stands still, the keystore table has
+    pairwise distinct addresses.  For ANY positive batch size and ANY number of batches: when the rescan reports done
+    the store satisfies C01's invariant `Inv` for the FULL keystore table — credits, unspent index, debits, deposit
+    records, tx records and block records are the books `bookOf` of the chain for ALL wallets, every ready wallet's
+    balance is its ledger total — `w` is ready, the follower's tip is unmoved, the other wallets' status and
+    balances are untouched and the unspent index keeps distinct keys.
+    Proof (lemma files ImportSub / ImportJoin / ImportJoinTx / ImportJoinRec / ImportJoinScan / ImportJoinFin /
+    ImportJoinMain): invariant `ScanJ` = the store is the JOIN of the books of the other wallets for the whole chain
+    and the books of `w` up to its cursor; block records are kept as a function of the tx records (`BlocksOK`),
+    which `insertByPos` preserves when it merges into a block record that other wallets' transactions populate
+    (fix D29); the per-transaction step refines the book operations on the join without `AllReady`
+    (`addImp_join`); at the tip the join of the halves is the books of the table (`join_credits`, …). -/
+theorem import_exact_static_joined (batch : Nat) (hb : batch > 0) (c : Ctx) (w : Wid)
+    (hC : ChainOK c) (hKN : KeysNodup c.own) (hw : w ∈ c.wallets)
+    (n : Nat) (s : Store) (v : Vol) (s' : Store) (v' : Vol) (items : List Item)
+    (hI : Inv { c with own := c.own.filter (fun e => e.2.1 ≠ w) } s c.node.chain)
+    (hG : ∃ G, c.node.chain[0]? = some G ∧ G.txs = [])
+    (hst : AMap.get s.status w = some ⟨some 0, false⟩) (hbal : AMap.get s.balance w = some 0)
+    (hbest : v.best.height + 1 = c.node.chain.length) (hnb : v.best.height + batch < 2 ^ 64)
+    (h : runBatches batch c w n s v = some (s', v', items)) :
+    Inv c s' c.node.chain ∧ AMap.get s'.status w = some ⟨none, false⟩ ∧ v'.best = v.best ∧
+      (∀ w', w' ≠ w → AMap.get s'.balance w' = AMap.get s.balance w' ∧ AMap.get s'.status w' = AMap.get s.status w') ∧
+      (KeysNodup s.unspent → KeysNodup s'.unspent) := by
+  obtain ⟨G, hG0, hGt⟩ := hG
+  have hS := scanJ_fresh hKN hC hI hG0 hGt hbal
+  obtain ⟨a, b, d, e⟩ := run_scanJ hb hKN hC (List.contains_iff_mem.2 hw) n s v 0 ⟨some 0, false⟩ s' v' hS hst rfl hbest
+    (Nat.zero_le _) hnb (runBatches_runImport batch c w n s v s' v' items h)
+  exact ⟨scanJ_tip_inv hKN hC a hbest, b, d, fun w' hw' => ⟨e.1 w' hw', e.2.1 w' hw'⟩, e.2.2⟩
+
+open MW.Lemmas.ImportExact MW.Lemmas.ImportJoin MW.Lemmas.Ledger in
+/-- **import_exact_static_full** — the FULL statement of stage 1 (kept word for word from the round in which it was
+    a type-checked `def`), now PROVED: other READY wallets in the instance, their books for the whole chain in the
+    store, `w` just imported, the chain stands still: when the rescan reports done the store satisfies `Inv` for
+    the full keystore table.  (The readiness hypothesis `AllReady …` is not needed by the proof: nothing but the
+    rescan runs.)  `import_exact_static_joined` adds the status / tip / frame conclusions. -/
+theorem import_exact_static_full :
   ∀ (batch : Nat) (c : Ctx) (w : Wid) (n : Nat) (s : Store) (v : Vol) (s' : Store) (v' : Vol) (items : List Item),
     batch > 0 → Lemmas.ImportExact.ChainOK c → Lemmas.Ledger.KeysNodup c.own → w ∈ c.wallets →
     Lemmas.Ledger.AllReady (c.own.filter (fun e => e.2.1 ≠ w)) (readyWallets s c.wallets) →
@@ -629,7 +648,366 @@ def import_exact_static_full : Prop :=
     AMap.get s.status w = some ⟨some 0, false⟩ → AMap.get s.balance w = some 0 →
     v.best.height + 1 = c.node.chain.length → v.best.height + batch < 2 ^ 64 →
     runBatches batch c w n s v = some (s', v', items) →
-    Lemmas.Ledger.Inv c s' c.node.chain
+    Lemmas.Ledger.Inv c s' c.node.chain := by
+  intro batch c w n s v s' v' items hb hC hKN hw _ hI hG hst hbal hbest hnb h
+  exact (import_exact_static_joined batch hb c w hC hKN hw n s v s' v' items hI hG hst hbal hbest hnb h).1
+
+open MW.Lemmas.ImportExact MW.Lemmas.ImportJoin MW.Lemmas.Ledger in
+/-- … and the rescan does report done with other wallets in the instance: no batch fails, `best + 1` batches
+    always suffice -/
+theorem import_static_terminates_joined (batch : Nat) (hb : batch > 0) (c : Ctx) (w : Wid)
+    (hC : ChainOK c) (hKN : KeysNodup c.own) (hw : w ∈ c.wallets) (s : Store) (v : Vol)
+    (hI : Inv { c with own := c.own.filter (fun e => e.2.1 ≠ w) } s c.node.chain)
+    (hG : ∃ G, c.node.chain[0]? = some G ∧ G.txs = [])
+    (hst : AMap.get s.status w = some ⟨some 0, false⟩) (hbal : AMap.get s.balance w = some 0)
+    (hbest : v.best.height + 1 = c.node.chain.length) (hnb : v.best.height + batch < 2 ^ 64) :
+    (runImport batch c w (v.best.height + 1) s v).isSome = true := by
+  obtain ⟨G, hG0, hGt⟩ := hG
+  exact run_totalJ hb hKN hC (List.contains_iff_mem.2 hw) _ s v 0 ⟨some 0, false⟩
+    (scanJ_fresh hKN hC hI hG0 hGt hbal) hst rfl hbest (Nat.zero_le _) hnb (by omega)
+
+open MW.Lemmas.ImportExact MW.Lemmas.ImportJoin MW.Lemmas.Ledger in
+/-- **import_observed_static_joined.** After the rescan EVERY wallet of the instance — the restored one and the
+    ones that were there — reports what the chain specification says: unspent outputs as a multiset
+    `Spec.Chain.utxosOf`, and, for the ready ones, WalletBalance = `Spec.Chain.balance` (C01 `coins_perm` /
+    `balance_correct` on the invariant the rescan ends in). -/
+theorem import_observed_static_joined (batch : Nat) (hb : batch > 0) (c : Ctx) (w : Wid)
+    (hC : ChainOK c) (hKN : KeysNodup c.own) (hw : w ∈ c.wallets)
+    (n : Nat) (s : Store) (v : Vol) (s' : Store) (v' : Vol) (items : List Item)
+    (hI : Inv { c with own := c.own.filter (fun e => e.2.1 ≠ w) } s c.node.chain) (hU : KeysNodup s.unspent)
+    (hG : ∃ G, c.node.chain[0]? = some G ∧ G.txs = [])
+    (hst : AMap.get s.status w = some ⟨some 0, false⟩) (hbal : AMap.get s.balance w = some 0)
+    (hbest : v.best.height + 1 = c.node.chain.length) (hnb : v.best.height + batch < 2 ^ 64)
+    (hlen : c.node.chain.length < 2 ^ 32) (hcb : c.p.cbMaturity < 2 ^ 32)
+    (hstk : ∀ x ∈ Spec.Chain.ledgerOf c.own c.node.chain, ∀ f, x.cls = .stk f → f + 1 < 2 ^ 32)
+    (h : runBatches batch c w n s v = some (s', v', items)) (w' : Wid) (mc : Nat) :
+    ((coinsOf s' w').map (Spec.Chain.obsM s'.syncedTo)).Perm
+        ((Spec.Chain.utxosOf c.own c.node.chain w').map (Spec.Chain.obsS c.p (c.node.chain.length - 1))) ∧
+      ((readyWallets s' c.wallets).contains w' = true →
+        walletBalance s' w' mc = some (Spec.Chain.balance c.p c.own c.node.chain w' mc)) := by
+  obtain ⟨hI', _, _, _, hwf⟩ := import_exact_static_joined batch hb c w hC hKN hw n s v s' v' items hI hG hst hbal hbest hnb h
+  have H : ObsHyp c s' c.node.chain := ⟨hI', hwf hU, hC.valid, hC.heights, hlen, hcb, hstk⟩
+  exact ⟨coins_perm H w', fun hr => balance_correct H hr mc⟩
+
+-- ------------------------------------------------------------------ stage 2: the chain grows while the rescan runs
+
+open MW.Lemmas.ImportExact MW.Lemmas.Ledger in
+/-- **import_extensions_inv** (stage 2 of `import_exact_full`, TIP EXTENSIONS; PARTIAL: the restored keystore is the
+    instance's only one, and reorganisations are not covered).  Events (`MW.Lemmas.ImportExact.stepX`): a worker
+    batch of any positive size (run only while the wallet is not ready), or the node appends a block to its best
+    chain and the follower is notified at once (`processBlock` on the extended node).  For EVERY interleaving whose
+    final chain is valid: the follower stays at the node's tip and either the wallet is still importing and the
+    store holds exactly the books of the chain up to its cursor (`Scan`: while nobody is ready `filterBlock` only
+    moves the synced-to table, so the books stay "up to the cursor" although the chain has grown), or the wallet
+    is ready and the store satisfies C01's invariant `Inv` for the node's whole chain (after the hand-over the live
+    follower books the new blocks: C01 `connect_sound`). -/
+theorem import_extensions_inv (batch : Nat) (hb : batch > 0) (p : Params) (own : Own) (wallets : List Wid) (w : Wid)
+    (hAR : AllReady own [w]) (hws : wallets = [w]) (sys0 : XSys) (evs : List XEv)
+    (hC : ChainOK { p := p, own := own, wallets := wallets, node := (evs.foldl (stepX batch p own wallets w) sys0).node })
+    (hnb : (evs.foldl (stepX batch p own wallets w) sys0).node.chain.length + batch < 2 ^ 64)
+    (h0 : XInv p own wallets w sys0) : XInv p own wallets w (evs.foldl (stepX batch p own wallets w) sys0) :=
+  foldX_inv hb hAR hws evs sys0 hC hnb h0
+
+open MW.Lemmas.ImportExact MW.Lemmas.Ledger in
+/-- **import_exact_extensions_partial.**  … hence: whenever, after any interleaving of batches and tip extensions
+    starting from the scan invariant (e.g. the import moment, `scan_fresh`), the wallet is done, the store satisfies
+    `Inv` for the node's whole chain — including the blocks that arrived DURING the rescan and after it — the
+    follower is at the node's tip and the unspent index is well-formed; so the restored wallet reports
+    `Spec.Chain` (C01 `coins_perm` / `balance_correct`, as in `import_observed_static`). -/
+theorem import_exact_extensions_partial (batch : Nat) (hb : batch > 0) (p : Params) (own : Own) (wallets : List Wid)
+    (w : Wid) (hAR : AllReady own [w]) (hws : wallets = [w]) (sys0 : XSys) (evs : List XEv) (ws0 : WStatus) (k0 : Nat)
+    (hS : Scan { p := p, own := own, wallets := wallets, node := sys0.node } w sys0.s k0)
+    (hst : AMap.get sys0.s.status w = some ws0) (hk : ws0.synced = some k0) (hrm : ws0.removed = false)
+    (hbest : sys0.v.best.height + 1 = sys0.node.chain.length) (hle : k0 ≤ sys0.v.best.height)
+    (hC : ChainOK { p := p, own := own, wallets := wallets, node := (evs.foldl (stepX batch p own wallets w) sys0).node })
+    (hnb : (evs.foldl (stepX batch p own wallets w) sys0).node.chain.length + batch < 2 ^ 64)
+    (hdone : AMap.get (evs.foldl (stepX batch p own wallets w) sys0).s.status w = some ⟨none, false⟩) :
+    Inv { p := p, own := own, wallets := wallets, node := (evs.foldl (stepX batch p own wallets w) sys0).node }
+        (evs.foldl (stepX batch p own wallets w) sys0).s (evs.foldl (stepX batch p own wallets w) sys0).node.chain ∧
+      (evs.foldl (stepX batch p own wallets w) sys0).v.best.height + 1 =
+        (evs.foldl (stepX batch p own wallets w) sys0).node.chain.length ∧
+      KeysNodup (evs.foldl (stepX batch p own wallets w) sys0).s.unspent := by
+  obtain ⟨h1, h2⟩ := foldX_inv hb hAR hws evs sys0 hC hnb ⟨hbest, Or.inl ⟨ws0, k0, hst, hk, hrm, hle, hS⟩⟩
+  rcases h2 with ⟨ws, k, hst', hk', _⟩ | ⟨_, hI, hU⟩
+  · rw [hdone] at hst'
+    cases hst'
+    cases hk'
+  · exact ⟨hI, h1, hU⟩
+
+open MW.Lemmas.ImportExact MW.Lemmas.ImportJoin MW.Lemmas.Ledger in
+/-- **import_exact_extensions_joined** (stage 2 of `import_exact_full`, TIP EXTENSIONS, OTHER WALLETS IN THE
+    INSTANCE; reorganisations are not covered).  At the import moment the other keystores' wallets are ready and
+    their books for the followed chain are in the store (`Inv` for the table without `w`), `w` has cursor 0 and
+    balance 0, the follower is at the node's tip.  Then ANY interleaving of rescan batches (any positive size) and tip
+    extensions (the node appends a block, the live follower — booking the READY wallets only — is notified at
+    once) whose final chain is valid keeps the invariant `XInvJ`; in particular, when `w` is done the store
+    satisfies C01's invariant `Inv` for the FULL keystore table and the node's whole chain — the blocks that
+    arrived during the rescan included — and the follower is at the node's tip.
+    Proof: `extend_scanJ` — on the joined store `filterBlock` with the ready wallets cannot tell the keystore table
+    from its restriction to them (`filterTxs_sub`), the library's `filterTxs_block` gives their relevance records, and
+    `addRelevantMined` on a block that is new to the store is the rescan's step (`import_tx_eq_live`), i.e.
+    `addTx_join` with the ready wallets active and `w`'s books passive (an input MAY hit a coin of `w`: it is
+    skipped, `spendFoldJ`); after the hand-over C01's `connect_sound`. -/
+theorem import_exact_extensions_joined (batch : Nat) (hb : batch > 0) (p : Params) (own : Own) (wallets : List Wid)
+    (w : Wid) (hKN : KeysNodup own) (hw : w ∈ wallets) (sys0 : XSys) (evs : List XEv)
+    (hI : Inv { p := p, own := own.filter (fun e => e.2.1 ≠ w), wallets := wallets, node := sys0.node } sys0.s sys0.node.chain)
+    (hAR : AllReady (own.filter (fun e => e.2.1 ≠ w)) (readyWallets sys0.s wallets))
+    (hne : (readyWallets sys0.s wallets).isEmpty = false)
+    (hG : ∃ G, sys0.node.chain[0]? = some G ∧ G.txs = [])
+    (hst : AMap.get sys0.s.status w = some ⟨some 0, false⟩) (hbal : AMap.get sys0.s.balance w = some 0)
+    (hbest : sys0.v.best.height + 1 = sys0.node.chain.length)
+    (hC : ChainOK { p := p, own := own, wallets := wallets, node := (evs.foldl (stepX batch p own wallets w) sys0).node })
+    (hnb : (evs.foldl (stepX batch p own wallets w) sys0).node.chain.length + batch < 2 ^ 64) :
+    XInvJ (KeysNodup sys0.s.unspent) p own wallets w (evs.foldl (stepX batch p own wallets w) sys0) ∧
+    (AMap.get (evs.foldl (stepX batch p own wallets w) sys0).s.status w = some ⟨none, false⟩ →
+      Inv { p := p, own := own, wallets := wallets, node := (evs.foldl (stepX batch p own wallets w) sys0).node }
+          (evs.foldl (stepX batch p own wallets w) sys0).s (evs.foldl (stepX batch p own wallets w) sys0).node.chain ∧
+        (evs.foldl (stepX batch p own wallets w) sys0).v.best.height + 1 =
+          (evs.foldl (stepX batch p own wallets w) sys0).node.chain.length) := by
+  obtain ⟨G, hG0, hGt⟩ := hG
+  obtain ⟨rest, hrest⟩ := foldX_chain batch p own wallets w evs sys0
+  have hC0 : ChainOK { p := p, own := own, wallets := wallets, node := sys0.node } :=
+    chainOK_prefix
+      (c := { p := p, own := own, wallets := wallets, node := (evs.foldl (stepX batch p own wallets w) sys0).node })
+      (c' := { p := p, own := own, wallets := wallets, node := sys0.node }) (rest := rest) rfl hrest hC
+  have hS := scanJ_fresh (c := { p := p, own := own, wallets := wallets, node := sys0.node }) (w := w) hKN hC0 hI hG0 hGt hbal
+  have hX := foldXJ_inv (u0 := KeysNodup sys0.s.unspent) hb hKN hw evs sys0 hC hnb
+    ⟨hbest, fun h => h, Or.inl ⟨⟨some 0, false⟩, 0, hst, rfl, rfl, Nat.zero_le _, hS, hAR, hne⟩⟩
+  refine ⟨hX, ?_⟩
+  intro hdone
+  obtain ⟨h1, _, h2⟩ := hX
+  rcases h2 with ⟨ws, k, hst', hk', _⟩ | ⟨_, hI', _⟩
+  · rw [hdone] at hst'
+    cases hst'
+    cases hk'
+  · exact ⟨hI', h1⟩
+
+open MW.Lemmas.ImportExact MW.Lemmas.ImportReorg MW.Lemmas.Ledger in
+/-- **import_reorg_inv** (stage 2 of `import_exact_full`, REORGANISATIONS above / at / below the cursor; PARTIAL in one
+    respect: the restored keystore is the instance's only one).  Events (`MW.Lemmas.ImportReorg.stepR`): a worker batch
+    of any positive size, or the node switches to ANY other valid best chain `N` — an extension of its chain or
+    another branch forking anywhere above the genesis block — and the follower is notified of `N`'s tip at once:
+    `processBlock` → `reorg` (align, disconnect down to the fork with `rollback` and the cursor pull-back, connect up).
+    For EVERY such history (`AllGoodR`: each new chain is hash-linked, valid, shares the genesis block, block ids
+    determine blocks, the node still has the files of the blocks it orphaned) the invariant `RInv` is kept: the
+    follower's tip is the node's tip and either the wallet is importing and the store holds exactly the books of the
+    node's chain up to its cursor — a disconnect above the cursor finds no block record and changes nothing but the
+    synced-to table; a disconnect AT the cursor is C01's rollback of the tip block (`rollback_tipR`: Rollback works on
+    all balances whatever the wallets' status) and `pullBack` moves the cursor to the new tip; connecting books
+    nothing while nobody is ready — or the wallet is ready and C01's `Inv` holds (C01 `disconnect_sound` /
+    `connect_sound`).  The reorg loops are C01's, re-proved for an abstract store invariant (`MW.Lemmas.ImportReorg`). -/
+theorem import_reorg_inv (batch : Nat) (hb : batch > 0) (p : Params) (own : Own) (wallets : List Wid) (w : Wid)
+    (hAR : AllReady own [w]) (hws : wallets = [w]) (sys0 : XSys) (evs : List REv)
+    (hgood : AllGoodR batch p own wallets w sys0 evs) (h0 : RInv batch p own wallets w sys0) :
+    RInv batch p own wallets w (evs.foldl (stepR batch p own wallets w) sys0) :=
+  foldR_inv hb hAR hws evs sys0 hgood h0
+
+open MW.Lemmas.ImportExact MW.Lemmas.ImportReorg MW.Lemmas.Ledger in
+/-- **import_exact_reorg_partial.**  … hence: from the scan invariant (e.g. the import moment), after ANY history of
+    batches, extensions and reorganisations, whenever the wallet is done the store satisfies C01's `Inv` for the
+    node's CURRENT chain, the follower is at its tip and the unspent index is well-formed — the restored wallet
+    reports `Spec.Chain` of the chain the node ended on. -/
+theorem import_exact_reorg_partial (batch : Nat) (hb : batch > 0) (p : Params) (own : Own) (wallets : List Wid)
+    (w : Wid) (hAR : AllReady own [w]) (hws : wallets = [w]) (sys0 : XSys) (evs : List REv) (ws0 : WStatus) (k0 : Nat)
+    (hS : Scan { p := p, own := own, wallets := wallets, node := sys0.node } w sys0.s k0)
+    (hst : AMap.get sys0.s.status w = some ws0) (hk : ws0.synced = some k0) (hrm : ws0.removed = false)
+    (hle : k0 + 1 ≤ sys0.node.chain.length)
+    (hv : sys0.v.best = tipMeta sys0.node.chain) (hg : GoodChain sys0.node.chain)
+    (hval : ChainValid own sys0.node.chain) (hnb : sys0.node.chain.length + batch < 2 ^ 64)
+    (hgood : AllGoodR batch p own wallets w sys0 evs)
+    (hdone : AMap.get (evs.foldl (stepR batch p own wallets w) sys0).s.status w = some ⟨none, false⟩) :
+    Inv { p := p, own := own, wallets := wallets, node := (evs.foldl (stepR batch p own wallets w) sys0).node }
+        (evs.foldl (stepR batch p own wallets w) sys0).s (evs.foldl (stepR batch p own wallets w) sys0).node.chain ∧
+      (evs.foldl (stepR batch p own wallets w) sys0).v.best =
+        tipMeta (evs.foldl (stepR batch p own wallets w) sys0).node.chain ∧
+      KeysNodup (evs.foldl (stepR batch p own wallets w) sys0).s.unspent := by
+  obtain ⟨h1, h2, _⟩ := foldR_inv hb hAR hws evs sys0 hgood
+    ⟨Or.inl ⟨ws0, k0, hst, hk, hrm, hle, scanS_of_scan hS⟩, hv, hg, hval, hnb⟩
+  rcases h1 with ⟨ws, k, hst', hk', _⟩ | ⟨_, hI, hU⟩
+  · rw [hdone] at hst'
+    cases hst'
+    cases hk'
+  · exact ⟨hI, h2, hU⟩
+
+open MW.Lemmas.ImportExact MW.Lemmas.ImportReorg MW.Lemmas.ImportJoin MW.Lemmas.Ledger in
+/-- **import_exact_reorg_joined** (stage 2 of `import_exact_full` COMPLETE for the event model "the node moves and the
+    follower is notified of the new tip at once": batches, tip extensions and REORGANISATIONS above / at / below the
+    cursor, OTHER WALLETS IN THE INSTANCE followed live).  At the import moment the other keystores' wallets are ready
+    with their books in the store (`Inv` for the table without `w`), `w` has cursor 0 and balance 0, the follower is at
+    the tip of the node's (hash-linked, valid) chain.  Then for EVERY history of rescan batches (any positive size)
+    and notifications (`AllGoodR`: each new best chain is hash-linked, valid, has the same genesis block, block ids
+    determine blocks, the node keeps the files of orphaned blocks) the invariant `RInvJ` holds: the follower's tip is
+    the node's tip and either `w` is importing and the store is the join "other wallets: the node's whole chain" ⊕
+    "`w`: the node's chain up to its cursor", or `w` is ready and C01's `Inv` holds for the full keystore table.
+    Disconnecting a block ABOVE the cursor: Rollback — which looks owners up in ALL keystores — meets a record written
+    for the ready wallets only; inputs that spent a coin of `w` have no debit and outputs paying `w` no credit, they
+    are skipped (`rollback_tipJ`, C01's per-step lemmas on the joined book).  AT the cursor (reached when the tip has
+    come down to it) the joined store IS the books of the full table: C01's rollback (`rollback_tipR`), and `pullBack`
+    moves the cursor to the new tip — so a reorganisation BELOW the cursor undoes both halves.  Connecting: the live
+    follower books the ready wallets only (`connect_scanJS`). -/
+theorem import_exact_reorg_joined (batch : Nat) (hb : batch > 0) (p : Params) (own : Own) (wallets : List Wid)
+    (w : Wid) (hKN : KeysNodup own) (hw : w ∈ wallets) (sys0 : XSys) (evs : List REv)
+    (hI : Inv { p := p, own := own.filter (fun e => e.2.1 ≠ w), wallets := wallets, node := sys0.node } sys0.s sys0.node.chain)
+    (hAR : AllReady (own.filter (fun e => e.2.1 ≠ w)) (readyWallets sys0.s wallets))
+    (hne : (readyWallets sys0.s wallets).isEmpty = false)
+    (hG : ∃ G, sys0.node.chain[0]? = some G ∧ G.txs = [])
+    (hst : AMap.get sys0.s.status w = some ⟨some 0, false⟩) (hbal : AMap.get sys0.s.balance w = some 0)
+    (hv : sys0.v.best = tipMeta sys0.node.chain) (hg : GoodChain sys0.node.chain)
+    (hval : ChainValid own sys0.node.chain) (hnb : sys0.node.chain.length + batch < 2 ^ 64)
+    (hgood : AllGoodR batch p own wallets w sys0 evs) :
+    RInvJ batch p own wallets w (evs.foldl (stepR batch p own wallets w) sys0) ∧
+    (AMap.get (evs.foldl (stepR batch p own wallets w) sys0).s.status w = some ⟨none, false⟩ →
+      Inv { p := p, own := own, wallets := wallets, node := (evs.foldl (stepR batch p own wallets w) sys0).node }
+          (evs.foldl (stepR batch p own wallets w) sys0).s (evs.foldl (stepR batch p own wallets w) sys0).node.chain ∧
+        (evs.foldl (stepR batch p own wallets w) sys0).v.best =
+          tipMeta (evs.foldl (stepR batch p own wallets w) sys0).node.chain) := by
+  obtain ⟨G, hG0, hGt⟩ := hG
+  have hC0 : ChainOK { p := p, own := own, wallets := wallets, node := sys0.node } := ⟨hval, hg.heights⟩
+  have hS := scanJ_fresh (c := { p := p, own := own, wallets := wallets, node := sys0.node }) (w := w) hKN hC0 hI hG0 hGt hbal
+  have hX := foldRJ_inv hb hKN hw evs sys0 hgood
+    ⟨Or.inl ⟨⟨some 0, false⟩, 0, hst, rfl, rfl, by have := hg.length_pos; omega, scanJS_of_scanJ hS, hAR, hne⟩, hv, hg, hval, hnb⟩
+  refine ⟨hX, ?_⟩
+  intro hdone
+  obtain ⟨h1, h2, _⟩ := hX
+  rcases h1 with ⟨ws, k, hst', hk', _⟩ | ⟨_, hI', _⟩
+  · rw [hdone] at hst'
+    cases hst'
+    cases hk'
+  · exact ⟨hI', h2⟩
+
+open MW.Lemmas.ImportExact MW.Lemmas.ImportReorg in
+/-- a notification event of `stepR` is the node movement `Ev.node N` followed by the notification `Ev.block b` of
+    `import_exact_full`'s semantics -/
+theorem stepR_is_stepEv (batch : Nat) (p : Params) (own : Own) (wallets : List Wid) (w : Wid) (sys : Sys)
+    (N : List Block) (b : Block) :
+    let r := stepEv batch p own wallets w (stepEv batch p own wallets w sys (.node N)) (.block b)
+    let x := stepR batch p own wallets w ⟨sys.node, sys.s, sys.v⟩ (.notify N b)
+    x.node = r.node ∧ x.s = r.s ∧ x.v = r.v := ⟨rfl, rfl, rfl⟩
+
+open MW.Lemmas.ImportExact in
+/-- the stage-2 events are events of `import_exact_full`'s semantics (`stepEv`): a batch is `Ev.batch`, an extension
+    is the node movement `Ev.node (chain ++ [b])` followed by the notification `Ev.block b` -/
+theorem stepX_is_stepEv (batch : Nat) (p : Params) (own : Own) (wallets : List Wid) (w : Wid) (sys : Sys) (b : Block) :
+    (let r := stepEv batch p own wallets w (stepEv batch p own wallets w sys (.node (sys.node.chain ++ [b]))) (.block b)
+     b.prev = sys.v.best.hash →
+      let x := stepX batch p own wallets w ⟨sys.node, sys.s, sys.v⟩ (.extend b)
+      x.node = r.node ∧ x.s = r.s ∧ x.v = r.v) ∧
+    (let r := stepEv batch p own wallets w sys .batch
+     (∃ k rm, AMap.get sys.s.status w = some ⟨some k, rm⟩) →
+      let x := stepX batch p own wallets w ⟨sys.node, sys.s, sys.v⟩ .batch
+      x.node = r.node ∧ x.s = r.s ∧ x.v = r.v) := by
+  constructor
+  · intro r hprev
+    simp only [stepX, hprev, if_true]
+    exact ⟨rfl, rfl, rfl⟩
+  · intro r ⟨k, rm, hst⟩
+    simp only [stepX, hst]
+    show _ ∧ _ ∧ _
+    simp only [r, stepEv]
+    cases importStep batch { p := p, own := own, wallets := wallets, node := sys.node } w sys.s sys.v with
+    | error e => exact ⟨rfl, rfl, rfl⟩
+    | ok x => obtain ⟨s', v', f⟩ := x; exact ⟨rfl, rfl, rfl⟩
+
+/-- the stage-2 statement in the vocabulary of `import_exact_full` (`stepEv` with arbitrary `Ev` lists), kept
+    type-checked; NOT PROVED in this literal form (it lets batches run on a ready wallet and notifies blocks that need
+    not be on the node's chain).  SUPERSEDED by the proved `import_exact_extensions_joined`, `import_exact_reorg_joined`
+    (stage 2) and `import_exact_full_good` (stage 3), whose events are tied to `stepEv` by `stepX_is_stepEv`,
+    `stepR_is_stepEv`, `stepG_is_stepEv`. -/
+def import_exact_moving_full : Prop :=
+  ∀ (batch : Nat) (p : Params) (own : Own) (wallets : List Wid) (w : Wid) (sys0 : Sys) (evs : List Ev),
+    batch > 0 → Lemmas.Ledger.KeysNodup own → w ∈ wallets →
+    Lemmas.Ledger.Inv { p := p, own := own.filter (fun e => e.2.1 ≠ w), wallets := wallets, node := sys0.node }
+      sys0.s sys0.node.chain →
+    AMap.get sys0.s.status w = some ⟨some 0, false⟩ → AMap.get sys0.s.balance w = some 0 →
+    (∃ G, sys0.node.chain[0]? = some G ∧ G.txs = []) →
+    let sys := evs.foldl (stepEv batch p own wallets w) sys0
+    Lemmas.ImportExact.ChainOK { p := p, own := own, wallets := wallets, node := sys.node } →
+    AMap.get sys.s.status w = some ⟨none, false⟩ → sys.v.best.height + 1 = sys.node.chain.length →
+    (∀ h b, sys.node.chain[h]? = some b → AMap.get sys.s.sync h = some b.id) →
+    Lemmas.Ledger.Inv { p := p, own := own, wallets := wallets, node := sys.node } sys.s sys.node.chain
+
+-- ------------------------------------------------------------------ stage 3: general histories
+
+open MW.Lemmas.ImportExact MW.Lemmas.ImportReorg MW.Lemmas.ImportJoin MW.Lemmas.Ledger in
+/-- **import_exact_full_good** — `import_exact_full` for WELL-FORMED histories, other wallets in the instance.
+    Events (`MW.Lemmas.ImportJoin.stepG`, the event semantics of `import_exact_full`: `stepG_is_stepEv`): a rescan batch
+    of any positive size (run while the wallet is not ready — the worker holds tasks for such wallets only), a
+    notification for ANY block of the node's current best chain (extension, or reorganisation above / at / below the
+    cursor), and a NODE MOVEMENT to any other chain that is not announced to the wallet at that moment (the next batch
+    meets the followed-chain check of fix D27: it is either put off, or it reads a part of the node's chain that is the
+    follower's own — `importStep_node_congr`).  Well-formed (`AllGoodG`): every chain the node adopts is hash-linked,
+    valid for the keystore table, starts at the genesis block `G0`, consists of blocks whose files the node has
+    (`known`; so block ids determine blocks) and is shorter than 2^64 − batch; a notified block is on the node's chain;
+    no known block is the genesis block's predecessor.  At the import moment the other keystores' wallets are ready
+    with their books in the store (C01's `Inv` without `w`), `w` has cursor 0 and balance 0, the follower is at the
+    node's tip.  THEN, whenever the wallet is done and the follower has caught up with the node, the store satisfies
+    C01's invariant `Inv` for the full keystore table and the node's chain and the unspent index is well-formed —
+    so EVERY wallet of the instance, the restored one included, reports exactly what `MW.Spec.Chain` says for the node's
+    chain: its unspent outputs (as a multiset, with height, maturity, confirmations, address) and, if ready, its
+    WalletBalance — which is what a wallet that watched live reports (C01).
+    The literal `import_exact_full` stays a type-checked `def`: it also quantifies over ill-formed node chains and
+    lets batches run on a READY wallet (where `asyncImport` computes with the done sentinel 2^64 − 1, see the
+    "done-wallet wrap" test), which the worker never does. -/
+theorem import_exact_full_good (batch : Nat) (hb : batch > 0) (p : Params) (own : Own) (wallets : List Wid) (w : Wid)
+    (hKN : KeysNodup own) (hw : w ∈ wallets) (G0 : Block) (sys0 : XSys) (evs : List GEv)
+    -- the import moment
+    (hI : Inv { p := p, own := own.filter (fun e => e.2.1 ≠ w), wallets := wallets, node := sys0.node } sys0.s sys0.node.chain)
+    (hAR : AllReady (own.filter (fun e => e.2.1 ≠ w)) (readyWallets sys0.s wallets))
+    (hne : (readyWallets sys0.s wallets).isEmpty = false) (hGt : G0.txs = [])
+    (hst : AMap.get sys0.s.status w = some ⟨some 0, false⟩) (hbal : AMap.get sys0.s.balance w = some 0)
+    (hU : KeysNodup sys0.s.unspent) (hv : sys0.v.best = tipMeta sys0.node.chain)
+    (hN0 : ChainFacts batch own G0 sys0.node.known sys0.node.chain)
+    (hp0 : ∀ x, AMap.get sys0.node.known x.id = some x → G0.prev ≠ x.id)
+    -- the history
+    (hgood : AllGoodG batch p own wallets w G0 sys0 evs)
+    -- at the end: done, and the follower has caught up with the node
+    (hdone : AMap.get (evs.foldl (stepG batch p own wallets w) sys0).s.status w = some ⟨none, false⟩)
+    (hbest : (evs.foldl (stepG batch p own wallets w) sys0).v.best.height + 1 =
+      (evs.foldl (stepG batch p own wallets w) sys0).node.chain.length)
+    (hsync : ∀ h b, (evs.foldl (stepG batch p own wallets w) sys0).node.chain[h]? = some b →
+      AMap.get (evs.foldl (stepG batch p own wallets w) sys0).s.sync h = some b.id)
+    -- the 32-bit size bounds of C01's observation theorems
+    (hlen : (evs.foldl (stepG batch p own wallets w) sys0).node.chain.length < 2 ^ 32) (hcb : p.cbMaturity < 2 ^ 32)
+    (hstk : ∀ x ∈ Spec.Chain.ledgerOf own (evs.foldl (stepG batch p own wallets w) sys0).node.chain,
+      ∀ f, x.cls = .stk f → f + 1 < 2 ^ 32)
+    (w' : Wid) (minConf : Nat) :
+    Inv { p := p, own := own, wallets := wallets, node := (evs.foldl (stepG batch p own wallets w) sys0).node }
+        (evs.foldl (stepG batch p own wallets w) sys0).s (evs.foldl (stepG batch p own wallets w) sys0).node.chain ∧
+    walletBalance (evs.foldl (stepG batch p own wallets w) sys0).s w minConf =
+      some (Spec.Chain.balance p own (evs.foldl (stepG batch p own wallets w) sys0).node.chain w minConf) ∧
+    ((coinsOf (evs.foldl (stepG batch p own wallets w) sys0).s w').map
+        (Spec.Chain.obsM (evs.foldl (stepG batch p own wallets w) sys0).s.syncedTo)).Perm
+      ((Spec.Chain.utxosOf own (evs.foldl (stepG batch p own wallets w) sys0).node.chain w').map
+        (Spec.Chain.obsS p ((evs.foldl (stepG batch p own wallets w) sys0).node.chain.length - 1))) := by
+  have hC0 : ChainOK { p := p, own := own, wallets := wallets, node := sys0.node } := ⟨hN0.valid, hN0.good.heights⟩
+  have hS := scanJ_fresh (c := { p := p, own := own, wallets := wallets, node := sys0.node }) (w := w) hKN hC0 hI hN0.gen hGt hbal
+  have hG := foldG_inv (p := p) (G0 := G0) hb hKN hw evs sys0 hp0 hgood
+    ⟨hN0, hU, sys0.node.chain, hN0,
+      Or.inl ⟨⟨some 0, false⟩, 0, hst, rfl, rfl, by have := hN0.good.length_pos; omega, scanJS_of_scanJ hS, hAR, hne⟩, hv⟩
+  obtain ⟨hInv, hUF⟩ := ginv_caught_up hG hdone hbest hsync
+  have hNF := hG.1
+  have H : ObsHyp { p := p, own := own, wallets := wallets, node := (evs.foldl (stepG batch p own wallets w) sys0).node }
+      (evs.foldl (stepG batch p own wallets w) sys0).s (evs.foldl (stepG batch p own wallets w) sys0).node.chain :=
+    ⟨hInv, hUF, hNF.valid, hNF.good.heights, hlen, hcb, hstk⟩
+  refine ⟨hInv, balance_correct H ?_ minConf, coins_perm H w'⟩
+  apply (ready_contains_iff _ wallets w).2
+  refine ⟨hw, ?_⟩
+  rw [hdone]; rfl
+
+open MW.Lemmas.ImportExact MW.Lemmas.ImportJoin in
+/-- the events of `stepG` are the events of `import_exact_full`'s `stepEv` (a batch: while the wallet is importing) -/
+theorem stepG_is_stepEv (batch : Nat) (p : Params) (own : Own) (wallets : List Wid) (w : Wid) (sys : Sys) :
+    (∀ b, let r := stepEv batch p own wallets w sys (.block b)
+          let x := stepG batch p own wallets w ⟨sys.node, sys.s, sys.v⟩ (.block b)
+          x.node = r.node ∧ x.s = r.s ∧ x.v = r.v) ∧
+    (∀ ch, let r := stepEv batch p own wallets w sys (.node ch)
+           let x := stepG batch p own wallets w ⟨sys.node, sys.s, sys.v⟩ (.node ch)
+           x.node = r.node ∧ x.s = r.s ∧ x.v = r.v) ∧
+    ((∃ k rm, AMap.get sys.s.status w = some ⟨some k, rm⟩) →
+      let r := stepEv batch p own wallets w sys .batch
+      let x := stepG batch p own wallets w ⟨sys.node, sys.s, sys.v⟩ .batch
+      x.node = r.node ∧ x.s = r.s ∧ x.v = r.v) :=
+  ⟨fun _ => ⟨rfl, rfl, rfl⟩, fun _ => ⟨rfl, rfl, rfl⟩, fun h => (stepX_is_stepEv batch p own wallets w sys default).2 h⟩
 
 /-- the regenerated constants have the shape the theorems assume (positive batch size and expiry window, the done
     sentinel is the top of uint64) -/
@@ -739,5 +1117,462 @@ example :
      | .ok (s', _, fin) => some (fin, walletBalance s' "W1" 1, s'.txrecs.map (·.1.1))
      | .error _ => none) =
     ([("C1", true), ("T3x", false)], some (true, some ⟨500, 500, 0, 0⟩, ["C1"])) := by decide
+
+-- stage 1 with another wallet in the instance: every hypothesis of `import_exact_static_full` /
+-- `import_exact_static_joined` holds on the chain of `Ex` with a second wallet W2 (owner of X1) that is ready and
+-- whose books are in the store when W1 is imported.  W2's store is itself produced by a rescan (stage 1, single
+-- keystore), so its invariant comes from `import_exact_static_partial`.
+namespace Ex2
+/-- the instance while only W2 exists -/
+def ctxR : Ctx := { ctx with own := [("X1", ("W2", false))], wallets := ["W2"] }
+def stR0 : Store := { sync := [(3, "B3"), (2, "B2"), (1, "B1"), (0, "G")], syncedTo := 3,
+                      status := [("W2", ⟨some 0, false⟩)], balance := [("W2", 0)], addrs := [(("W2", false, "X1"), 0)] }
+/-- the instance after W1's keystore was imported -/
+def ctx2 : Ctx := { ctx with own := [("A1", ("W1", false)), ("X1", ("W2", false))], wallets := ["W1", "W2"] }
+/-- ImportWallet for W1: status "importing from 0", balance 0 -/
+def addW1 (s : Store) : Store :=
+  { s with status := AMap.put s.status "W1" ⟨some 0, false⟩, balance := AMap.put s.balance "W1" 0 }
+end Ex2
+open Ex2
+
+open MW.Lemmas.ImportExact MW.Lemmas.Ledger in
+theorem ex2_chainOK : ChainOK ctx2 := ⟨by decide, ex_chainOK.heights⟩
+
+open MW.Lemmas.ImportExact MW.Lemmas.Ledger in
+/-- W2's rescan (one batch) leaves C01's invariant for the view without W1, and W2 ready -/
+theorem ex2_invR (sR : Store) (vR : Vol) (items : List Item)
+    (h : runBatches 1000 ctxR "W2" 1 stR0 vol = some (sR, vR, items)) :
+    Inv { ctx2 with own := ctx2.own.filter (fun e => e.2.1 ≠ "W1") } (addW1 sR) ctx2.node.chain ∧
+      (readyWallets (addW1 sR) ctx2.wallets) = ["W2"] := by
+  have hAR : AllReady ctxR.own ["W2"] := by
+    intro a w' ch h
+    rw [show ctxR.own = [("X1", ("W2", false))] from rfl, AMap.get_cons] at h
+    split at h
+    · cases h; rfl
+    · cases h
+  have hCR : ChainOK ctxR := ⟨by decide, ex_chainOK.heights⟩
+  have hSc : Scan ctxR "W2" stR0 0 := by
+    refine scan_fresh (G := g) rfl rfl rfl rfl rfl rfl rfl rfl rfl ?_ rfl
+    intro h
+    match h with
+    | 0 => rfl
+    | 1 => rfl
+    | 2 => rfl
+    | 3 => rfl
+    | (n + 4) => simp [stR0, ctxR, ctx, AMap.get, Spec.Books.syncOf]
+  obtain ⟨hI, hst, _, _⟩ := import_exact_static_partial 1000 (by decide) ctxR "W2" hAR hCR rfl 1 stR0 vol sR vR items
+    ⟨some 0, false⟩ 0 hSc rfl rfl rfl (by decide) (by decide) h
+  have hst2 : AMap.get (addW1 sR).status "W2" = some ⟨none, false⟩ := by
+    show AMap.get (AMap.put sR.status "W1" _) "W2" = _
+    rw [AMap.get_put, if_neg (by decide)]; exact hst
+  have hst1 : AMap.get (addW1 sR).status "W1" = some ⟨some 0, false⟩ := by
+    show AMap.get (AMap.put sR.status "W1" _) "W1" = _
+    rw [AMap.get_put, if_pos rfl]
+  have hrw : readyWallets (addW1 sR) ctx2.wallets = ["W2"] := by
+    show List.filter _ ["W1", "W2"] = _
+    simp only [List.filter, hst1, hst2]
+    rfl
+  refine ⟨⟨⟨hI.agree.unspent, hI.agree.credits, hI.agree.debits, hI.agree.game, hI.agree.txrecs, hI.agree.blocks⟩,
+    ?_, hI.sync, hI.syncedTo⟩, hrw⟩
+  intro w' hw'
+  rw [hrw] at hw'
+  have : w' = "W2" := by simpa using hw'
+  subst this
+  show AMap.get (AMap.put sR.balance "W1" 0) "W2" = _
+  rw [AMap.get_put, if_neg (by decide)]
+  apply hI.bal "W2"
+  show (List.filter _ ["W2"]).contains "W2" = true
+  simp only [List.filter, hst]
+  rfl
+
+open MW.Lemmas.ImportExact MW.Lemmas.Ledger in
+/-- … so W1's three-batch rescan (batch size 1) in the instance that already holds W2 — T3 is recorded already
+    (W2 receives its change), B2's block record already lists [C2, T3] — ends in C01's invariant for BOTH wallets -/
+example (sR : Store) (vR : Vol) (itemsR : List Item) (hR : runBatches 1000 ctxR "W2" 1 stR0 vol = some (sR, vR, itemsR))
+    (s' : Store) (v' : Vol) (items : List Item) (h : runBatches 1 ctx2 "W1" 5 (addW1 sR) vol = some (s', v', items)) :
+    Inv ctx2 s' ctx2.node.chain := by
+  obtain ⟨hI, hrw⟩ := ex2_invR sR vR itemsR hR
+  refine import_exact_static_full 1 ctx2 "W1" 5 (addW1 sR) vol s' v' items (by decide) ex2_chainOK (by unfold Lemmas.Ledger.KeysNodup; decide) (by decide)
+    ?_ hI ⟨g, rfl, rfl⟩ ?_ ?_ rfl (by decide) h
+  · rw [hrw]
+    intro a w' ch ha
+    rw [show (ctx2.own.filter (fun e => e.2.1 ≠ "W1")) = [("X1", ("W2", false))] from rfl, AMap.get_cons] at ha
+    split at ha
+    · cases ha; rfl
+    · cases ha
+  · show AMap.get (AMap.put sR.status "W1" _) "W1" = _
+    rw [AMap.get_put, if_pos rfl]
+  · show AMap.get (AMap.put sR.balance "W1" 0) "W1" = _
+    rw [AMap.get_put, if_pos rfl]
+
+/-- both rescans do end, and then both wallets report what the chain says (W1: 300 in T3:0; W2: 5 + 199 + 5), and
+    B2's block record is in block order -/
+example : ((runBatches 1000 ctxR "W2" 1 stR0 vol).bind (fun r =>
+      (runBatches 1 ctx2 "W1" 5 (addW1 r.1) vol).map (fun r' =>
+        (r'.2.2.map (·.tx.id), walletBalance r'.1 "W1" 1, walletBalance r'.1 "W2" 1,
+         (AMap.get r'.1.blocks 2).map (·.2))))) =
+    some (["C1", "T3"], some ⟨300, 300, 0, 0⟩, some ⟨209, 209, 0, 0⟩, some ["C2", "T3"]) := by decide
+
+-- stage 2: B3 arrives while W1 (the only keystore) is being rescanned with batch size 1
+namespace Ex3
+/-- node and follower at B2; W1 just imported -/
+def sys0 : Lemmas.ImportExact.XSys :=
+  { node := { chain := [g, b1, b2], known := ctx.node.known },
+    s := { sync := [(2, "B2"), (1, "B1"), (0, "G")], syncedTo := 2,
+           status := [("W1", ⟨some 0, false⟩)], balance := [("W1", 0)], addrs := [(("W1", false, "A1"), 0)] },
+    v := { best := ⟨2, "B2"⟩ } }
+def evs : List Lemmas.ImportExact.XEv := [.batch, .extend b3, .batch, .batch]
+end Ex3
+
+open MW.Lemmas.ImportExact MW.Lemmas.Ledger in
+/-- every hypothesis of `import_exact_extensions_partial` holds on this history: one batch (cursor 1), block B3
+    arrives, two more batches — the wallet is done at the NEW tip with C01's invariant for [G, B1, B2, B3] -/
+example : Inv { p := ctx.p, own := ctx.own, wallets := ctx.wallets,
+                node := (Ex3.evs.foldl (stepX 1 ctx.p ctx.own ctx.wallets "W1") Ex3.sys0).node }
+    (Ex3.evs.foldl (stepX 1 ctx.p ctx.own ctx.wallets "W1") Ex3.sys0).s [g, b1, b2, b3] := by
+  have hnode : (Ex3.evs.foldl (stepX 1 ctx.p ctx.own ctx.wallets "W1") Ex3.sys0).node = ctx.node := by
+    rfl
+  have hS : Scan { p := ctx.p, own := ctx.own, wallets := ctx.wallets, node := Ex3.sys0.node } "W1" Ex3.sys0.s 0 := by
+    refine scan_fresh (G := g) rfl rfl rfl rfl rfl rfl rfl rfl rfl ?_ rfl
+    intro h
+    match h with
+    | 0 => rfl
+    | 1 => rfl
+    | 2 => rfl
+    | (n + 3) => simp [Ex3.sys0, AMap.get, Spec.Books.syncOf]
+  have := (import_exact_extensions_partial 1 (by decide) ctx.p ctx.own ctx.wallets "W1" ex_allReady rfl Ex3.sys0 Ex3.evs
+    ⟨some 0, false⟩ 0 hS rfl rfl rfl rfl (by decide) (by rw [hnode]; exact ex_chainOK) (by rw [hnode]; decide)
+    (by decide)).1
+  rw [hnode] at this ⊢
+  exact this
+example : (let r := Ex3.evs.foldl (Lemmas.ImportExact.stepX 1 ctx.p ctx.own ctx.wallets "W1") Ex3.sys0
+           (r.v.best, useWallet r.s ctx.wallets "W1", walletBalance r.s "W1" 1)) =
+    (⟨3, "B3"⟩, .ok, some ⟨300, 300, 0, 0⟩) := by decide
+
+-- stage 2 with another wallet in the instance: W2 (owner of X1) is followed live while W1 is rescanned with batch
+-- size 1, and block B3 (which pays W2) arrives between the batches
+namespace Ex4
+def node3 : Node := { chain := [g, b1, b2], known := ctx.node.known }
+def ctxR3 : Ctx := { ctxR with node := node3 }
+def stR3 : Store := { sync := [(2, "B2"), (1, "B1"), (0, "G")], syncedTo := 2,
+                      status := [("W2", ⟨some 0, false⟩)], balance := [("W2", 0)], addrs := [(("W2", false, "X1"), 0)] }
+def vol3 : Vol := { best := ⟨2, "B2"⟩ }
+theorem hrun : (runBatches 1000 ctxR3 "W2" 1 stR3 vol3).isSome = true := by decide
+/-- W2's store for [G, B1, B2] (produced by a rescan) -/
+def sR : Store := ((runBatches 1000 ctxR3 "W2" 1 stR3 vol3).get hrun).1
+def sys0 : Lemmas.ImportExact.XSys := ⟨node3, addW1 sR, vol3⟩
+def evs : List Lemmas.ImportExact.XEv := [.batch, .extend b3, .batch, .batch]
+end Ex4
+
+open MW.Lemmas.ImportExact MW.Lemmas.Ledger in
+theorem ex4_invR :
+    Inv { p := ctx.p, own := ctx2.own.filter (fun e => e.2.1 ≠ "W1"), wallets := ctx2.wallets, node := Ex4.node3 }
+        (addW1 Ex4.sR) Ex4.node3.chain ∧
+      (readyWallets (addW1 Ex4.sR) ctx2.wallets) = ["W2"] := by
+  have hAR : AllReady Ex4.ctxR3.own ["W2"] := by
+    intro a w' ch h
+    rw [show Ex4.ctxR3.own = [("X1", ("W2", false))] from rfl, AMap.get_cons] at h
+    split at h
+    · cases h; rfl
+    · cases h
+  have hCR : ChainOK Ex4.ctxR3 := by
+    refine ⟨by decide, ?_⟩
+    intro i b hb
+    match i with
+    | 0 => simp [Ex4.ctxR3, Ex4.node3] at hb; subst hb; rfl
+    | 1 => simp [Ex4.ctxR3, Ex4.node3] at hb; subst hb; rfl
+    | 2 => simp [Ex4.ctxR3, Ex4.node3] at hb; subst hb; rfl
+    | (n + 3) => simp [Ex4.ctxR3, Ex4.node3] at hb
+  have hSc : Scan Ex4.ctxR3 "W2" Ex4.stR3 0 := by
+    refine scan_fresh (G := g) rfl rfl rfl rfl rfl rfl rfl rfl rfl ?_ rfl
+    intro h
+    match h with
+    | 0 => rfl
+    | 1 => rfl
+    | 2 => rfl
+    | (n + 3) => simp [Ex4.stR3, Ex4.ctxR3, Ex4.node3, AMap.get, Spec.Books.syncOf]
+  have h : runBatches 1000 Ex4.ctxR3 "W2" 1 Ex4.stR3 Ex4.vol3 =
+      some (Ex4.sR, ((runBatches 1000 Ex4.ctxR3 "W2" 1 Ex4.stR3 Ex4.vol3).get Ex4.hrun).2.1,
+        ((runBatches 1000 Ex4.ctxR3 "W2" 1 Ex4.stR3 Ex4.vol3).get Ex4.hrun).2.2) :=
+    (Option.some_get Ex4.hrun).symm
+  obtain ⟨hI, hst, _, _⟩ := import_exact_static_partial 1000 (by decide) Ex4.ctxR3 "W2" hAR hCR rfl 1 Ex4.stR3 Ex4.vol3
+    Ex4.sR _ _ ⟨some 0, false⟩ 0 hSc rfl rfl rfl (by decide) (by decide) h
+  have hst2 : AMap.get (addW1 Ex4.sR).status "W2" = some ⟨none, false⟩ := by
+    show AMap.get (AMap.put Ex4.sR.status "W1" _) "W2" = _
+    rw [AMap.get_put, if_neg (by decide)]; exact hst
+  have hst1 : AMap.get (addW1 Ex4.sR).status "W1" = some ⟨some 0, false⟩ := by
+    show AMap.get (AMap.put Ex4.sR.status "W1" _) "W1" = _
+    rw [AMap.get_put, if_pos rfl]
+  have hrw : readyWallets (addW1 Ex4.sR) ctx2.wallets = ["W2"] := by
+    show List.filter _ ["W1", "W2"] = _
+    simp only [List.filter, hst1, hst2]
+    rfl
+  refine ⟨⟨⟨hI.agree.unspent, hI.agree.credits, hI.agree.debits, hI.agree.game, hI.agree.txrecs, hI.agree.blocks⟩,
+    ?_, hI.sync, hI.syncedTo⟩, hrw⟩
+  intro w' hw'
+  rw [hrw] at hw'
+  have : w' = "W2" := by simpa using hw'
+  subst this
+  show AMap.get (AMap.put Ex4.sR.balance "W1" 0) "W2" = _
+  rw [AMap.get_put, if_neg (by decide)]
+  apply hI.bal "W2"
+  show (List.filter _ ["W2"]).contains "W2" = true
+  simp only [List.filter, hst]
+  rfl
+
+open MW.Lemmas.ImportExact MW.Lemmas.ImportJoin MW.Lemmas.Ledger in
+/-- every hypothesis of `import_exact_extensions_joined` holds on this history (batch, B3 arrives and is booked for
+    W2 by the live follower, two more batches): W1 is done at the NEW tip and C01's invariant holds for BOTH wallets
+    and [G, B1, B2, B3] -/
+example : Inv { p := ctx.p, own := ctx2.own, wallets := ctx2.wallets,
+                node := (Ex4.evs.foldl (stepX 1 ctx.p ctx2.own ctx2.wallets "W1") Ex4.sys0).node }
+    (Ex4.evs.foldl (stepX 1 ctx.p ctx2.own ctx2.wallets "W1") Ex4.sys0).s [g, b1, b2, b3] := by
+  have hnode : (Ex4.evs.foldl (stepX 1 ctx.p ctx2.own ctx2.wallets "W1") Ex4.sys0).node = ctx.node := by rfl
+  obtain ⟨hI, hrw⟩ := ex4_invR
+  have := (import_exact_extensions_joined 1 (by decide) ctx.p ctx2.own ctx2.wallets "W1"
+    (by unfold KeysNodup; decide) (by decide) Ex4.sys0 Ex4.evs hI
+    (by
+      show AllReady _ (readyWallets (addW1 Ex4.sR) ctx2.wallets)
+      rw [hrw]
+      intro a w' ch ha
+      rw [show (ctx2.own.filter (fun e => e.2.1 ≠ "W1")) = [("X1", ("W2", false))] from rfl, AMap.get_cons] at ha
+      split at ha
+      · cases ha; rfl
+      · cases ha)
+    (by show (readyWallets (addW1 Ex4.sR) ctx2.wallets).isEmpty = false; rw [hrw]; rfl)
+    ⟨g, rfl, rfl⟩
+    (by show AMap.get (AMap.put Ex4.sR.status "W1" _) "W1" = _; rw [AMap.get_put, if_pos rfl])
+    (by show AMap.get (AMap.put Ex4.sR.balance "W1" 0) "W1" = _; rw [AMap.get_put, if_pos rfl])
+    rfl (by rw [hnode]; exact ex2_chainOK) (by rw [hnode]; decide)).2 (by decide)
+  rw [hnode] at this ⊢
+  exact this.1
+example : (let r := Ex4.evs.foldl (Lemmas.ImportExact.stepX 1 ctx.p ctx2.own ctx2.wallets "W1") Ex4.sys0
+           (r.v.best, useWallet r.s ctx2.wallets "W1", walletBalance r.s "W1" 1, walletBalance r.s "W2" 1,
+            (AMap.get r.s.blocks 2).map (·.2), (AMap.get r.s.blocks 3).map (·.2))) =
+    (⟨3, "B3"⟩, .ok, some ⟨300, 300, 0, 0⟩, some ⟨209, 209, 0, 0⟩, some ["C2", "T3"], some ["C4"]) := by rfl
+
+-- stage 2 with a reorganisation: W1 (the only keystore) is rescanned with batch size 1 over S = G–B1–B2 (C01's "D2"
+-- witness); after the first batch (cursor 1) the node switches to N = G–B1–B2a–B3a and the follower is notified of
+-- B3a: it rolls B2 back (above the cursor) and connects B2a, B3a; three more batches finish the rescan on N.
+-- T1 (in B2a) pays W1 10, T2 (in B3a) spends it: the restored wallet ends with nothing, as Spec.Chain says.
+namespace Ex5
+open MW.Lemmas.Ledger
+def sys0 : Lemmas.ImportExact.XSys :=
+  { node := { chain := d2S, known := d2Known },
+    s := { sync := [(2, "B2"), (1, "B1"), (0, "G")], syncedTo := 2,
+           status := [("W1", ⟨some 0, false⟩)], balance := [("W1", 0)], addrs := [(("W1", false, "A1"), 0)] },
+    v := { best := ⟨2, "B2"⟩ } }
+def evs : List Lemmas.ImportReorg.REv := [.batch, .notify d2N d2B3a, .batch, .batch, .batch]
+end Ex5
+
+open MW.Lemmas.ImportExact MW.Lemmas.ImportReorg MW.Lemmas.Ledger in
+/-- every hypothesis of `import_exact_reorg_partial` holds on this history, and the wallet is done at the end: C01's
+    invariant for the chain the node ended on -/
+example : Inv { p := d2Ctx.p, own := d2Own, wallets := ["W1"],
+                node := (Ex5.evs.foldl (stepR 1 d2Ctx.p d2Own ["W1"] "W1") Ex5.sys0).node }
+    (Ex5.evs.foldl (stepR 1 d2Ctx.p d2Own ["W1"] "W1") Ex5.sys0).s d2N := by
+  have hnode : (Ex5.evs.foldl (stepR 1 d2Ctx.p d2Own ["W1"] "W1") Ex5.sys0).node.chain = d2N := by rfl
+  have hS : Scan { p := d2Ctx.p, own := d2Own, wallets := ["W1"], node := Ex5.sys0.node } "W1" Ex5.sys0.s 0 := by
+    refine scan_fresh (G := d2G) rfl rfl rfl rfl rfl rfl rfl rfl rfl ?_ rfl
+    intro h
+    match h with
+    | 0 => rfl
+    | 1 => rfl
+    | 2 => rfl
+    | (n + 3) => simp [Ex5.sys0, d2S, AMap.get, Spec.Books.syncOf]
+  have hgood : AllGoodR 1 d2Ctx.p d2Own ["W1"] "W1" Ex5.sys0 Ex5.evs := by
+    refine ⟨trivial, ⟨d2GoodN, rfl, d2IdInj, d2ValidN, d2KnownS, rfl, rfl, (fun h => nomatch h), by decide⟩,
+      trivial, trivial, trivial, trivial⟩
+  have := (import_exact_reorg_partial 1 (by decide) d2Ctx.p d2Own ["W1"] "W1" d2AllReady rfl Ex5.sys0 Ex5.evs
+    ⟨some 0, false⟩ 0 hS rfl rfl rfl (by decide) rfl d2GoodS d2ValidS (by decide) hgood (by rfl)).1
+  rw [hnode] at this
+  exact this
+example : (let r := Ex5.evs.foldl (Lemmas.ImportReorg.stepR 1 Lemmas.Ledger.d2Ctx.p Lemmas.Ledger.d2Own ["W1"] "W1") Ex5.sys0
+           (r.v.best, useWallet r.s ["W1"] "W1", walletBalance r.s "W1" 1, (AMap.get r.s.blocks 2).map (·.2))) =
+    (⟨3, "B3a"⟩, .ok, some ⟨0, 0, 0, 0⟩, some ["T1"]) := by rfl
+
+-- stage 2 with a reorganisation AND another wallet: W2 (owner of X1, which receives every coinbase and T1's change) is
+-- followed live over S = G–B1–B2 while W1 (owner of A1) is rescanned with batch size 1; after the first batch the node
+-- switches to N = G–B1–B2a–B3a: the follower rolls back B2 (a record of W2, above W1's cursor), connects B2a, B3a for
+-- W2; three more batches finish W1's rescan on N.
+namespace Ex6
+open MW.Lemmas.Ledger
+def own6 : Own := [("A1", ("W1", false)), ("X1", ("W2", false))]
+def ctxR6 : Ctx := ⟨d2Ctx.p, [("X1", ("W2", false))], ["W2"], { chain := d2S, known := d2Known }⟩
+def stR6 : Store := { sync := [(2, "B2"), (1, "B1"), (0, "G")], syncedTo := 2,
+                      status := [("W2", ⟨some 0, false⟩)], balance := [("W2", 0)], addrs := [(("W2", false, "X1"), 0)] }
+def vol6 : Vol := { best := ⟨2, "B2"⟩ }
+theorem hrun : (runBatches 1000 ctxR6 "W2" 1 stR6 vol6).isSome = true := by decide
+def sR : Store := ((runBatches 1000 ctxR6 "W2" 1 stR6 vol6).get hrun).1
+def sys0 : Lemmas.ImportExact.XSys := ⟨{ chain := d2S, known := d2Known }, addW1 sR, vol6⟩
+def evs : List Lemmas.ImportReorg.REv := [.batch, .notify d2N d2B3a, .batch, .batch, .batch]
+end Ex6
+
+open MW.Lemmas.ImportExact MW.Lemmas.Ledger in
+theorem ex6_invR :
+    Inv { p := d2Ctx.p, own := Ex6.own6.filter (fun e => e.2.1 ≠ "W1"), wallets := ["W1", "W2"], node := Ex6.sys0.node }
+        (addW1 Ex6.sR) d2S ∧
+      (readyWallets (addW1 Ex6.sR) ["W1", "W2"]) = ["W2"] := by
+  have hAR : AllReady Ex6.ctxR6.own ["W2"] := by
+    intro a w' ch h
+    rw [show Ex6.ctxR6.own = [("X1", ("W2", false))] from rfl, AMap.get_cons] at h
+    split at h
+    · cases h; rfl
+    · cases h
+  have hCR : ChainOK Ex6.ctxR6 := ⟨by decide, d2GoodS.heights⟩
+  have hSc : Scan Ex6.ctxR6 "W2" Ex6.stR6 0 := by
+    refine scan_fresh (G := d2G) rfl rfl rfl rfl rfl rfl rfl rfl rfl ?_ rfl
+    intro h
+    match h with
+    | 0 => rfl
+    | 1 => rfl
+    | 2 => rfl
+    | (n + 3) => simp [Ex6.stR6, Ex6.ctxR6, d2S, AMap.get, Spec.Books.syncOf]
+  have h : runBatches 1000 Ex6.ctxR6 "W2" 1 Ex6.stR6 Ex6.vol6 =
+      some (Ex6.sR, ((runBatches 1000 Ex6.ctxR6 "W2" 1 Ex6.stR6 Ex6.vol6).get Ex6.hrun).2.1,
+        ((runBatches 1000 Ex6.ctxR6 "W2" 1 Ex6.stR6 Ex6.vol6).get Ex6.hrun).2.2) :=
+    (Option.some_get Ex6.hrun).symm
+  obtain ⟨hI, hst, _, _⟩ := import_exact_static_partial 1000 (by decide) Ex6.ctxR6 "W2" hAR hCR rfl 1 Ex6.stR6 Ex6.vol6
+    Ex6.sR _ _ ⟨some 0, false⟩ 0 hSc rfl rfl rfl (by decide) (by decide) h
+  have hst2 : AMap.get (addW1 Ex6.sR).status "W2" = some ⟨none, false⟩ := by
+    show AMap.get (AMap.put Ex6.sR.status "W1" _) "W2" = _
+    rw [AMap.get_put, if_neg (by decide)]; exact hst
+  have hst1 : AMap.get (addW1 Ex6.sR).status "W1" = some ⟨some 0, false⟩ := by
+    show AMap.get (AMap.put Ex6.sR.status "W1" _) "W1" = _
+    rw [AMap.get_put, if_pos rfl]
+  have hrw : readyWallets (addW1 Ex6.sR) ["W1", "W2"] = ["W2"] := by
+    show List.filter _ ["W1", "W2"] = _
+    simp only [List.filter, hst1, hst2]
+    rfl
+  refine ⟨⟨⟨hI.agree.unspent, hI.agree.credits, hI.agree.debits, hI.agree.game, hI.agree.txrecs, hI.agree.blocks⟩,
+    ?_, hI.sync, hI.syncedTo⟩, hrw⟩
+  intro w' hw'
+  have hw'' : (readyWallets (addW1 Ex6.sR) ["W1", "W2"]).contains w' = true := hw'
+  rw [hrw] at hw''
+  have : w' = "W2" := by simpa using hw''
+  subst this
+  show AMap.get (AMap.put Ex6.sR.balance "W1" 0) "W2" = _
+  rw [AMap.get_put, if_neg (by decide)]
+  apply hI.bal "W2"
+  show (List.filter _ ["W2"]).contains "W2" = true
+  simp only [List.filter, hst]
+  rfl
+
+open MW.Lemmas.ImportExact MW.Lemmas.ImportReorg MW.Lemmas.ImportJoin MW.Lemmas.Ledger in
+/-- every hypothesis of `import_exact_reorg_joined` holds on this history, and W1 is done at the end: C01's invariant
+    for BOTH wallets and the chain the node ended on -/
+example : Inv { p := d2Ctx.p, own := Ex6.own6, wallets := ["W1", "W2"],
+                node := (Ex6.evs.foldl (stepR 1 d2Ctx.p Ex6.own6 ["W1", "W2"] "W1") Ex6.sys0).node }
+    (Ex6.evs.foldl (stepR 1 d2Ctx.p Ex6.own6 ["W1", "W2"] "W1") Ex6.sys0).s d2N := by
+  have hnode : (Ex6.evs.foldl (stepR 1 d2Ctx.p Ex6.own6 ["W1", "W2"] "W1") Ex6.sys0).node.chain = d2N := by rfl
+  obtain ⟨hI, hrw⟩ := ex6_invR
+  have hgood : AllGoodR 1 d2Ctx.p Ex6.own6 ["W1", "W2"] "W1" Ex6.sys0 Ex6.evs := by
+    refine ⟨trivial, ⟨d2GoodN, rfl, d2IdInj, by decide, d2KnownS, rfl, rfl, (fun h => nomatch h), by decide⟩,
+      trivial, trivial, trivial, trivial⟩
+  have := (import_exact_reorg_joined 1 (by decide) d2Ctx.p Ex6.own6 ["W1", "W2"] "W1"
+    (by unfold KeysNodup; decide) (by decide) Ex6.sys0 Ex6.evs hI
+    (by
+      show AllReady _ (readyWallets (addW1 Ex6.sR) ["W1", "W2"])
+      rw [hrw]
+      intro a w' ch ha
+      rw [show (Ex6.own6.filter (fun e => e.2.1 ≠ "W1")) = [("X1", ("W2", false))] from rfl, AMap.get_cons] at ha
+      split at ha
+      · cases ha; rfl
+      · cases ha)
+    (by show (readyWallets (addW1 Ex6.sR) ["W1", "W2"]).isEmpty = false; rw [hrw]; rfl)
+    ⟨d2G, rfl, rfl⟩
+    (by show AMap.get (AMap.put Ex6.sR.status "W1" _) "W1" = _; rw [AMap.get_put, if_pos rfl])
+    (by show AMap.get (AMap.put Ex6.sR.balance "W1" 0) "W1" = _; rw [AMap.get_put, if_pos rfl])
+    rfl d2GoodS (by decide) (by decide) hgood).2 (by rfl)
+  rw [hnode] at this
+  exact this.1
+example : (let r := Ex6.evs.foldl (Lemmas.ImportReorg.stepR 1 Lemmas.Ledger.d2Ctx.p Ex6.own6 ["W1", "W2"] "W1") Ex6.sys0
+           (r.v.best, useWallet r.s ["W1", "W2"] "W1", walletBalance r.s "W1" 1, walletBalance r.s "W2" 1,
+            (AMap.get r.s.blocks 2).map (·.2), (AMap.get r.s.blocks 3).map (·.2))) =
+    (⟨3, "B3a"⟩, .ok, some ⟨0, 0, 0, 0⟩, some ⟨690, 690, 0, 0⟩, some ["C3", "T1"], some ["C4", "T2"]) := by rfl
+
+-- stage 3: the node moves to N = G–B1–B2a–B3a WITHOUT telling the wallet; the next batch of W1's rescan (cursor 1, top
+-- of the range 2) meets the followed-chain check and is put off; then the notification for B3a arrives (reorganisation
+-- above the cursor, W2's record of B2 rolled back); three more batches finish the rescan
+namespace Ex7
+open MW.Lemmas.Ledger
+def evs : List Lemmas.ImportJoin.GEv := [.batch, .node d2N, .batch, .block d2B3a, .batch, .batch, .batch]
+end Ex7
+
+open MW.Lemmas.ImportExact MW.Lemmas.ImportReorg MW.Lemmas.ImportJoin MW.Lemmas.Ledger in
+/-- every hypothesis of `import_exact_full_good` holds on this history: both wallets then report `Spec.Chain` of N -/
+example (minConf : Nat) :
+    walletBalance (Ex7.evs.foldl (stepG 1 d2Ctx.p Ex6.own6 ["W1", "W2"] "W1") Ex6.sys0).s "W1" minConf =
+      some (Spec.Chain.balance d2Ctx.p Ex6.own6 d2N "W1" minConf) := by
+  have hnode : (Ex7.evs.foldl (stepG 1 d2Ctx.p Ex6.own6 ["W1", "W2"] "W1") Ex6.sys0).node.chain = d2N := by rfl
+  obtain ⟨hI, hrw⟩ := ex6_invR
+  have hp0 : ∀ x, AMap.get d2Known x.id = some x → d2G.prev ≠ x.id := by
+    intro x hx
+    rcases d2Known_cases hx with rfl | rfl | rfl | rfl | rfl <;> decide
+  have hFS : ChainFacts 1 Ex6.own6 d2G d2Known d2S := ⟨d2GoodS, by decide, rfl, d2KnownS, by decide⟩
+  have hFN : ChainFacts 1 Ex6.own6 d2G d2Known d2N := ⟨d2GoodN, by decide, rfl, d2KnownN, by decide⟩
+  have hgood : AllGoodG 1 d2Ctx.p Ex6.own6 ["W1", "W2"] "W1" d2G Ex6.sys0 Ex7.evs :=
+    ⟨trivial, hFN, trivial, rfl, trivial, trivial, trivial, trivial⟩
+  have := (import_exact_full_good 1 (by decide) d2Ctx.p Ex6.own6 ["W1", "W2"] "W1"
+    (by unfold KeysNodup; decide) (by decide) d2G Ex6.sys0 Ex7.evs hI
+    (by
+      show AllReady _ (readyWallets (addW1 Ex6.sR) ["W1", "W2"])
+      rw [hrw]
+      intro a w' ch ha
+      rw [show (Ex6.own6.filter (fun e => e.2.1 ≠ "W1")) = [("X1", ("W2", false))] from rfl, AMap.get_cons] at ha
+      split at ha
+      · cases ha; rfl
+      · cases ha)
+    (by show (readyWallets (addW1 Ex6.sR) ["W1", "W2"]).isEmpty = false; rw [hrw]; rfl)
+    rfl
+    (by show AMap.get (AMap.put Ex6.sR.status "W1" _) "W1" = _; rw [AMap.get_put, if_pos rfl])
+    (by show AMap.get (AMap.put Ex6.sR.balance "W1" 0) "W1" = _; rw [AMap.get_put, if_pos rfl])
+    (by unfold KeysNodup; decide) rfl hFS hp0 hgood (by rfl) (by rfl)
+    (by
+      intro h b hb
+      rw [hnode] at hb
+      match h with
+      | 0 => simp [d2N] at hb; subst hb; rfl
+      | 1 => simp [d2N] at hb; subst hb; rfl
+      | 2 => simp [d2N] at hb; subst hb; rfl
+      | 3 => simp [d2N] at hb; subst hb; rfl
+      | (n + 4) => simp [d2N] at hb)
+    (by rw [hnode]; decide) (by decide)
+    (by
+      rw [hnode]
+      intro x hx f hf
+      have hall : ∀ y ∈ Spec.Chain.ledgerOf Ex6.own6 d2N, y.cls = Cls.std := by decide
+      rw [hall x hx] at hf; cases hf)
+    "W1" minConf).2.1
+  rw [hnode] at this
+  exact this
+example : (let r := Ex7.evs.foldl (Lemmas.ImportJoin.stepG 1 Lemmas.Ledger.d2Ctx.p Ex6.own6 ["W1", "W2"] "W1") Ex6.sys0
+           let r2 := [Lemmas.ImportJoin.GEv.batch, .node Lemmas.Ledger.d2N, .batch].foldl
+             (Lemmas.ImportJoin.stepG 1 Lemmas.Ledger.d2Ctx.p Ex6.own6 ["W1", "W2"] "W1") Ex6.sys0
+           (r.v.best, useWallet r.s ["W1", "W2"] "W1", walletBalance r.s "W2" 1,
+            (AMap.get r2.s.status "W1").map (·.synced), r2.v.best)) =
+    (⟨3, "B3a"⟩, .ok, some ⟨690, 690, 0, 0⟩, some (some 1), ⟨2, "B2"⟩) := by rfl
+
+-- the LITERAL `import_exact_full` is too strong: it does not ask that the store FOLLOWS the node's chain at the import
+-- moment.  Witness: the store of `Ex` with the synced-to POINTER left at 0 while the synced-to TABLE holds the whole
+-- chain (not reachable in the code — `putSyncedTo` writes both — but allowed by the literal hypotheses): one batch
+-- finishes the rescan, all final conditions hold, and WalletBalance with minConf 3 counts T3:0 (height 2) as
+-- spendable (confirmations are computed from the pointer: u64(0 − 2 + 1)), where `Spec.Chain` says 2 confirmations.
+-- The hypothesis that is needed — at the import moment the store follows the chain (C01's `Inv` for the other
+-- wallets, which includes the pointer) — is exactly the one `import_exact_full_good` has.
+theorem import_exact_full_literal_false : ¬ import_exact_full := by
+  intro h
+  have := h 1000 ctx.p ctx.own ctx.wallets "W1" ⟨ctx.node, { st with syncedTo := 0 }, vol⟩ [Ev.batch] 3 (by decide)
+    ⟨by decide, by decide, by decide, by decide⟩
+    ⟨by decide, by decide, by
+      intro hh b hb
+      have hb' : [g, b1, b2, b3][hh]? = some b := hb
+      match hh with
+      | 0 => simp at hb'; subst hb'; rfl
+      | 1 => simp at hb'; subst hb'; rfl
+      | 2 => simp at hb'; subst hb'; rfl
+      | 3 => simp at hb'; subst hb'; rfl
+      | (n + 4) => simp at hb'⟩
+  exact absurd this (by decide)
 
 end MW.Props.C07
